@@ -20,6 +20,10 @@ def main():
     seed = int(os.environ.get("VERIF_SEED", "20260930"))
     prop = a.prop.upper()
     ctx = core.Ctx(prop, a.tier, seed)
+    rdir = os.path.join(core.VERIF, "replays", prop)
+    if os.path.isdir(rdir) and not a.replay:
+        for f in os.listdir(rdir):
+            os.remove(os.path.join(rdir, f))
     log = []
     mod = importlib.import_module("props." + prop.lower())
     # 0. no forbidden vernacular anywhere in the development
